@@ -98,15 +98,27 @@ void oracle_c06_retry(World &w, const History &h)
   int nsrv = w.cfg->nservers;
   for (auto &e : h)
     if (e.k == EV_SETSERVERS && e.a == 4) nsrv = w.cfg->nservers + 1;
-  long bound = (long)nsrv * w.cfg->tries + 1 + 1 + 3;
   std::map<unsigned, std::vector<int>> byq;
   for (auto &t : w.txs)
     if (t.q.ok) byq[t.q.id].push_back(t.id);
   for (auto &kv : byq) {
+    // protocol-mandated resends that really happened for this query: one EDNS downgrade (FORMERR read), one
+    // UDP->TCP upgrade (TC read), at most three BADCOOKIE resends
+    int n_formerr = 0, n_tc = 0, n_bad = 0;
+    for (int txid : kv.second)
+      for (auto &p : w.packets) {
+        if (p.forged || p.for_tx != txid || p.seq_read < 0) continue;
+        if (p.kind == RK_FORMERR_NOOPT || p.kind == RK_FORMERR_OPT) n_formerr++;
+        if (p.kind == RK_TC) n_tc++;
+        if (p.kind == RK_BADCOOKIE) n_bad++;
+      }
+    long bound = (long)nsrv * w.cfg->tries + std::min(1, n_formerr) + std::min(1, n_tc) + std::min(3, n_bad);
     if ((long)kv.second.size() > bound)
-      w.violate("C06:retry:too-many-transmissions", fmt("query id %u was transmitted %zu times; bound is servers(%d) x tries(%d) + 5 = %ld", kv.first, kv.second.size(), nsrv, w.cfg->tries, bound));
+      w.violate("C06:retry:too-many-transmissions",
+                fmt("query id %u was transmitted %zu times; bound is servers(%d) x tries(%d) + %d EDNS downgrade + %d TCP upgrade + %d bad-cookie resends = %ld", kv.first,
+                    kv.second.size(), nsrv, w.cfg->tries, std::min(1, n_formerr), std::min(1, n_tc), std::min(3, n_bad), bound));
     if (kv.second.size() > 1) w.W("c06_retransmission");
-    if ((long)kv.second.size() == bound - 5) w.W("c06_budget_exhausted");
+    if ((long)kv.second.size() == (long)nsrv * w.cfg->tries) w.W("c06_budget_exhausted");
   }
   bool advanced = false;
   for (auto &e : h)
